@@ -202,7 +202,8 @@ def run_check(pid, tier):
             if b['kind'] == 'correspondence':
                 for bc in b['detail'].get('bad_cases', []):
                     try:
-                        f = prop.oracle_at(b['name'], bc['case'], bc['impl'])
+                        with core.deadline(60):
+                            f = prop.oracle_at(b['name'], bc['case'], bc['impl'])
                     except Exception:
                         f = None
                         notes.append('oracle_at crashed: %s' % traceback.format_exc()[-400:])
@@ -212,7 +213,8 @@ def run_check(pid, tier):
         for b in broken:
             if b['kind'] in ('proof', 'translator', 'stale-refutation'):
                 try:
-                    f = prop.diagnose(b)
+                    with core.deadline(240):
+                        f = prop.diagnose(b)
                 except Exception:
                     f = None
                     notes.append('diagnose crashed: %s' % traceback.format_exc()[-400:])
@@ -225,7 +227,13 @@ def run_check(pid, tier):
         rng = random.Random('oracle/%s/%d' % (pid, core.seed()))
         ts = time.time()
         try:
-            found, nev = prop.oracle_search(rng, budget, tier)
+            with core.deadline(budget * 3 + 60):
+                found, nev = prop.oracle_search(rng, budget, tier)
+        except core.Timeout:
+            found, nev = [], 0
+            notes.append('oracle_search exceeded its deadline: the implementation does not answer in time on some generated input')
+            broken.append({'kind': 'oracle-timeout', 'name': 'oracle_search',
+                           'detail': 'a call of the implementation did not return within %d s during the oracle search' % (budget * 3 + 60)})
         except Exception:
             found, nev = [], 0
             notes.append('oracle_search crashed: %s' % traceback.format_exc()[-600:])
